@@ -595,9 +595,10 @@ func deriveTripCount(loop *Loop) {
 			// Determine if Dead (TripCount 0) or Divergent (Unknown)
 			isDead := false
 			if isUpCounting {
-				// Condition: i < limit. Loop runs if Start < Limit.
-				if startC.Cmp(limitC) >= 0 {
-					// Condition is false immediately.
+				// Condition: i < limit (or i <= limit). The test fails at once if Start >= Limit
+				// (Start > Limit for the inclusive form: with Start == Limit the body runs once).
+				cmp := startC.Cmp(limitC)
+				if cmp > 0 || (cmp == 0 && !isInclusive) {
 					isDead = true
 				} else if stepC.Sign() <= 0 {
 					// Start < Limit, but step is negative (or zero). Diverges.
@@ -605,8 +606,9 @@ func deriveTripCount(loop *Loop) {
 					return
 				}
 			} else {
-				// Condition: i > limit. Loop runs if Start > Limit.
-				if startC.Cmp(limitC) <= 0 {
+				// Condition: i > limit (or i >= limit), mirrored.
+				cmp := startC.Cmp(limitC)
+				if cmp < 0 || (cmp == 0 && !isInclusive) {
 					isDead = true
 				} else if stepC.Sign() >= 0 {
 					// Start > Limit, but step is positive. Diverges.
